@@ -9,7 +9,6 @@ def jobs(tier):
 META = {
     "trusted_base": D.DFS_TRUSTED + ["POSIX.2 ERE axioms A1-A4 (contracts/dfs_afsp.h); toupper/tolower in the C locale"],
     "assumptions": ["7-bit non-NUL wildcard characters"],
-    "outside": ["regcomp/regexec themselves; transform_string_with_regex; extend_wildcard / qualify (std::string, regex-based)",
-                "case_insensitive_less/equal, rtrim (std::mismatch with a lambda, find_last_not_of): not extractable by the stated rules"],
-    "explanation": "for every wildcard character the emitted ERE fragment is the one that, under the POSIX axioms, denotes the documented set: # -> [^.], * -> [^.]*, letter -> [Xx], other -> [c] (or \\^ for '^')",
+    "outside": ["regcomp/regexec themselves; transform_string_with_regex; extend_wildcard / qualify (std::string, regex-based); std::find_if over the entries; the drive prefix of parse_filename"],
+    "explanation": "for every wildcard character the emitted ERE fragment is the one that, under the POSIX axioms, denotes the documented set: # -> [^.], * -> [^.]*, letter -> [Xx], other -> [c] (or \^ for '^'); D.NAME splits into directory and name; case_insensitive_less is the lexicographic order of the lower-cased strings; has_name: same directory character and same 7-bit name up to case",
 }
